@@ -316,6 +316,147 @@ func genC09(rng *rand.Rand, n int, emit func(Case), dist map[string]int) {
 		return ks
 	}
 	for it := 0; it < n; it++ {
+		if rng.Intn(12) == 0 {
+			// ---------------- map destinations: every key of every applicable source, later sources overriding earlier ones
+			mode := rng.Intn(4) // 0 map[string]string, 1 map[string][]string, 2 map[string]interface{}, 3 map[string]int (element type not supported: nothing is bound)
+			var mdst interface{}
+			switch mode {
+			case 0:
+				mdst = &map[string]string{"kept": "PRESET"}
+			case 1:
+				mdst = &map[string][]string{"kept": {"PRESET"}}
+			case 2:
+				mdst = &map[string]interface{}{"kept": "PRESET"}
+			default:
+				mdst = &map[string]int{"kept": -7}
+			}
+			method := []string{"GET", "POST", "PUT", "DELETE", "HEAD", "PATCH"}[rng.Intn(6)]
+			params, query, form := genData(), genData(), genData()
+			for _, d := range []map[string][]string{params, query, form} {
+				delete(d, "kept")
+			}
+			target := "/"
+			if len(query) > 0 {
+				target += "?" + url.Values(query).Encode()
+			}
+			bk := rng.Intn(5) // 0,1 none; 2 form; 3 malformed form; 4 unsupported
+			var req *http.Request
+			bodySx := L(I(0))
+			var formSeen map[string][]string
+			switch bk {
+			case 2:
+				if len(form) == 0 {
+					form["other"] = []string{"x"}
+				}
+				req = httptest.NewRequest(method, target, strings.NewReader(url.Values(form).Encode()))
+				req.Header.Set(echo.HeaderContentType, echo.MIMEApplicationForm)
+				probe := httptest.NewRequest(method, target, strings.NewReader(url.Values(form).Encode()))
+				probe.Header.Set(echo.HeaderContentType, echo.MIMEApplicationForm)
+				probe.ParseForm()
+				formSeen = map[string][]string(probe.Form) // net/http: body values followed by the URL query values (body only for POST/PUT/PATCH)
+				bodySx = L(I(1), dataSx(formSeen, keysOf(formSeen)))
+			case 3:
+				req = httptest.NewRequest(method, target, strings.NewReader("a=%zz&b=1"))
+				req.Header.Set(echo.HeaderContentType, echo.MIMEApplicationForm)
+				probe := httptest.NewRequest(method, target, strings.NewReader("a=%zz&b=1"))
+				probe.Header.Set(echo.HeaderContentType, echo.MIMEApplicationForm)
+				if probe.ParseForm() != nil {
+					bodySx = L(I(2))
+				} else { // methods without a body: the query alone is "the form"
+					bk, formSeen = 2, map[string][]string(probe.Form)
+					bodySx = L(I(1), dataSx(formSeen, keysOf(formSeen)))
+				}
+			case 4:
+				req = httptest.NewRequest(method, target, strings.NewReader("k=v"))
+				req.Header.Set(echo.HeaderContentType, "text/plain")
+				bodySx = L(I(3))
+			default:
+				req = httptest.NewRequest(method, target, nil)
+			}
+			c := recycledContext(e, req, httptest.NewRecorder())
+			pk := keysOf(params)
+			var pv []string
+			for _, k := range pk {
+				pv = append(pv, params[k][0])
+				params[k] = params[k][:1]
+			}
+			c.SetParamNames(pk...)
+			c.SetParamValues(pv...)
+			err := c.Bind(mdst)
+			status := 0
+			if err != nil {
+				status = 500
+				if he, isHE := err.(*echo.HTTPError); isHE {
+					status = he.Code
+				}
+			}
+			// observed content
+			got := map[string][]string{}
+			mv := reflect.ValueOf(mdst).Elem()
+			for _, k := range mv.MapKeys() {
+				v := mv.MapIndex(k)
+				if v.Kind() == reflect.Interface {
+					v = v.Elem()
+				}
+				switch v.Kind() {
+				case reflect.String:
+					got[k.String()] = []string{v.String()}
+				case reflect.Slice:
+					var xs []string
+					for j := 0; j < v.Len(); j++ {
+						xs = append(xs, v.Index(j).String())
+					}
+					got[k.String()] = xs
+				default:
+					got[k.String()] = []string{fmt.Sprint(v.Interface())}
+				}
+			}
+			// reference
+			want := map[string][]string{"kept": {"PRESET"}}
+			if mode == 3 {
+				want["kept"] = []string{"-7"}
+			}
+			apply := func(d map[string][]string) {
+				if mode == 3 {
+					return
+				}
+				for k, v := range d {
+					if mode == 1 {
+						want[k] = v
+					} else {
+						want[k] = v[:1]
+					}
+				}
+			}
+			apply(params)
+			if method == "GET" || method == "DELETE" || method == "HEAD" {
+				apply(query)
+			}
+			if bk == 2 {
+				apply(formSeen)
+			}
+			ok, why := true, ""
+			switch {
+			case bk == 3 && status != 400:
+				ok, why = false, fmt.Sprintf("map destination: malformed form body answered %d, not 400", status)
+			case bk == 4 && status != 415:
+				ok, why = false, fmt.Sprintf("map destination: unsupported body answered %d, not 415", status)
+			case bk != 3 && bk != 4 && status != 0:
+				ok, why = false, fmt.Sprintf("map destination: well-formed request rejected with %d: %v", status, err)
+			case status == 0 && fmt.Sprint(got) != fmt.Sprint(want):
+				ok, why = false, fmt.Sprintf("map destination (mode %d) holds %v, the sources give %v", mode, got, want)
+			}
+			out := L(I(0), I(status))
+			if status == 0 {
+				delete(got, "kept")
+				out = L(I(2), dataSx(got, keysOf(got)))
+			}
+			in := L(L(I(3), I(mode)), S(method), dataSx(params, pk), dataSx(query, keysOf(query)), bodySx)
+			emit(Case{In: in, Out: out, Ok: ok, Why: why, Key: Show(in),
+				Human: fmt.Sprintf("%T %s params=%v query=%v body-kind=%d form=%v -> status=%d map=%v", mdst, method, params, query, bk, formSeen, status, got)})
+			dist["map_destination_cases"]++
+			continue
+		}
 		dst := shapes[rng.Intn(len(shapes))]()
 		c09Preset(reflect.ValueOf(dst).Elem())
 		method := []string{"GET", "POST", "PUT", "DELETE", "HEAD", "OPTIONS", "REPORT", "GET", "POST"}[rng.Intn(9)]
